@@ -227,18 +227,18 @@ def search(ctx):
             if kcase == 0:
                 ctx.tried("mielens-vs-lens", (round(m, 4), round(x, 4), round(kz, 2), round(la, 3), round(pa, 3)))
                 fl_, orders, ch = lens_converged(det, sc, la, pol, opt, float(krho.max()), kz, x)
-                if ch > 1e-5:
+                if not (ch <= 1e-5):
                     ctx.violation("C08:lens-refinement", "refining an already resolved Lens quadrature (to orders %r) still changes the field by %.3g of the peak" % (orders, ch), dict(orders=list(orders), **info))
-                elif ch > 2e-8:
+                elif not (ch <= 2e-8):
                     ctx.notes.append("Lens quadrature did not stabilise to 2e-8 for one case (x=%.3g, kz=%.3g, angle=%.3g, last change %.2g): skipped" % (x, kz, la, ch))
                 else:
                     dev = float(np.abs(fl_ - fm).max() / scale)
-                    if dev > 5e-7:
+                    if not (dev <= 5e-7):
                         ctx.violation("C08:mielens-vs-lens", "MieLens differs from the converged Lens(Mie) (orders %r) by %.3g of the peak field" % (orders, dev), dict(orders=list(orders), **info))
                 # refining MieLens's own quadrature changes nothing
                 fm2 = F(MieLens(lens_angle=la, calculator_accuracy_kwargs=dict(quad_npts=200)))
                 dev = float(np.abs(fm2 - fm).max() / scale)
-                if dev > 1e-8:
+                if not (dev <= 1e-8):
                     ctx.violation("C08:mielens-refinement", "doubling MieLens's quadrature order changes the field by %.3g" % dev, info)
             elif kcase == 1:
                 # zero aberration, scalar or list of any length
@@ -247,7 +247,7 @@ def search(ctx):
                 ctx.tried("zero-aberration", (k0, round(x, 4), round(kz, 2)))
                 fa = F(AberratedMieLens(spherical_aberration=ab, lens_angle=la))
                 dev = float(np.abs(fa - fm).max() / scale)
-                if dev > 1e-13:
+                if not (dev <= 1e-13):
                     ctx.violation("C08:zero-aberration", "AberratedMieLens(%r) differs from MieLens by %.3g" % (ab, dev), dict(aberration=ab, **info))
             else:
                 # interpolation on / off / check, window sizes and degrees
@@ -257,13 +257,13 @@ def search(ctx):
                            dict(interpolate_integrals=True, interpolator_window_size=float(rng.uniform(10, 30)), interpolator_degree=int(rng.integers(32, 48)))):   # at least as fine as the defaults (30, 32): coarser settings trade accuracy by design
                     f_on = F(MieLens(lens_angle=la, calculator_accuracy_kwargs=kw))
                     dev = float(np.abs(f_on - f_off).max() / scale)
-                    if dev > 1e-9:
+                    if not (dev <= 1e-9):
                         ctx.violation("C08:interpolation", "interpolated radial integrals (%r) differ from direct evaluation by %.3g" % (kw, dev), dict(kwargs=repr(kw), **info))
                         break
                 if have_ne:
                     a = F(Lens(la, Mie(False, False), quad_npts_theta=40, quad_npts_phi=40, use_numexpr=True))
                     b = F(Lens(la, Mie(False, False), quad_npts_theta=40, quad_npts_phi=40, use_numexpr=False))
-                    if float(np.abs(a - b).max()) > 1e-10 * scale:
+                    if not (float(np.abs(a - b).max()) <= 1e-10 * scale):
                         ctx.violation("C08:numexpr", "Lens with and without numexpr differ", info)
         except Exception as ex:
             import traceback
